@@ -7,20 +7,45 @@ namespace WK.C30
 open WK.Gen.C30
 
 theorem inv_none {s : GState} (hi : Inv s) {k : Nat} {t t' : Thread} (hk : s.threads k = some t)
-    (hc : t'.casd = t.casd) (ht : TInv s.floor s.hist t') : Inv (commit s k s.floor t' .none) :=
-  inv_local hi hk hc s.acks hi.acksLe ht
+    (hc : t'.casd = t.casd) (hnr : t'.ret = none) (ht : TInv s.floor s.hist t') :
+    Inv (commit s k s.floor t' .none) :=
+  inv_local hi hk hc s.acks s.rets hi.acksLe hi.retsIn (fun _ h => h) (fun _ h => h)
+    (fun v hv => by simp [hnr] at hv) (fun _ hv => by simp [hnr] at hv) ht
 
 theorem inv_ret {s : GState} (hi : Inv s) {k : Nat} {t t' : Thread} {r : Ret} (hk : s.threads k = some t)
     (hc : t'.casd = t.casd) (hf : t'.kind = .setFloor ∧ r = .ok → t'.r0 ≤ s.floor)
+    (hid : ∀ v, r = .id v → v ∈ s.hist)
     (ht : TInv s.floor s.hist { t' with ret := some r }) : Inv (commit s k s.floor t' (.ret r)) := by
-  refine inv_local (t' := { t' with ret := some r }) hi hk hc _ ?_ ht
-  intro f hf'
-  split at hf'
-  · rename_i hcond
-    rcases List.mem_cons.mp hf' with h | h
-    · subst h; exact hf hcond
-    · exact hi.acksLe f h
-  · exact hi.acksLe f hf'
+  refine inv_local (t' := { t' with ret := some r }) hi hk hc _ _ ?_ ?_ ?_ ?_ ?_ ?_ ht
+  · intro f hf'
+    split at hf'
+    · rename_i hcond
+      rcases List.mem_cons.mp hf' with h | h
+      · subst h; exact hf hcond
+      · exact hi.acksLe f h
+    · exact hi.acksLe f hf'
+  · intro v hv
+    cases r with
+    | id w =>
+      rcases List.mem_cons.mp hv with h | h
+      · subst h; exact hid _ rfl
+      · exact hi.retsIn v h
+    | ok => exact hi.retsIn v hv
+    | err => exact hi.retsIn v hv
+  · intro v hv
+    cases r <;> simp [hv]
+  · intro f hf'
+    split
+    · exact List.mem_cons_of_mem _ hf'
+    · exact hf'
+  · intro v hv
+    simp only [Option.some.injEq] at hv
+    subst hv; simp
+  · intro hkind hv
+    simp only [Option.some.injEq] at hv
+    subst hv
+    have hk' : t'.kind = Kind.setFloor := hkind
+    simp [hk']
 
 /-- a thread that has returned does not step -/
 theorem ret_none_of_exec {F : Nat} {hist : List Nat} {t : Thread} (hT : TInv F hist t) {g : Nat}
@@ -36,35 +61,35 @@ theorem inv_run_next {s : GState} (hi : Inv s) {k : Nat} {t : Thread} {g fl' : N
     (he : exec nextProg s.floor t g = some (fl', t', o)) : Inv (commit s k fl' t' o) := by
   have hT := hi.thr k t h
   have hret : t.ret = none := ret_none_of_exec hT (x := (fl', t', o)) (by rw [hk]; exact he)
-  obtain ⟨hcasd, hhalt, hnx4, hnx5, hnxr, hsfCur, hsf2, hsfProbe, hsf8, hsf9, hsf10, hsfOk⟩ := hT
+  obtain ⟨hcasd, hsH, hsR, hsA, hhalt, hnx4, hnx5, hnxr, hsfCur, hsf2, hsfProbe, hsf8, hsf9, hsf10, hsfOk⟩ := hT
   rw [next_prog] at he
   match hpc : t.pc with
   | 0 =>
     simp [exec, hpc] at he
     obtain ⟨rfl, rfl, rfl⟩ := he
-    refine inv_none hi h (by simp [Thread.wr]) ?_
-    constructor <;> first | exact hcasd | simp_all [Thread.wr, haltPC]
+    refine inv_none hi h (by simp [Thread.wr]) (by simp [Thread.wr, hret]) ?_
+    constructor <;> first | exact hcasd | exact hsH | exact hsR | exact hsA | simp_all [Thread.wr, haltPC]
   | 1 =>
     simp [exec, hpc] at he
     obtain ⟨rfl, rfl, rfl⟩ := he
-    refine inv_none hi h (by simp [Thread.wr]) ?_
-    constructor <;> first | exact hcasd | simp_all [Thread.wr, haltPC]
+    refine inv_none hi h (by simp [Thread.wr]) (by simp [Thread.wr, hret]) ?_
+    constructor <;> first | exact hcasd | exact hsH | exact hsR | exact hsA | simp_all [Thread.wr, haltPC]
   | 2 =>
     simp [exec, hpc, evalCmp, Thread.rd] at he
     split at he
     · simp at he
       obtain ⟨rfl, rfl, rfl⟩ := he
-      refine inv_none hi h rfl ?_
-      constructor <;> first | exact hcasd | simp_all [haltPC]
+      refine inv_none hi h rfl hret ?_
+      constructor <;> first | exact hcasd | exact hsH | exact hsR | exact hsA | simp_all [haltPC]
     · simp at he
       obtain ⟨rfl, rfl, rfl⟩ := he
-      refine inv_none hi h rfl ?_
-      constructor <;> first | exact hcasd | (simp_all [haltPC] <;> omega)
+      refine inv_none hi h rfl hret ?_
+      constructor <;> first | exact hcasd | exact hsH | exact hsR | exact hsA | (simp_all [haltPC] <;> omega)
   | 3 =>
     simp [exec, hpc] at he
     obtain ⟨rfl, rfl, rfl⟩ := he
-    refine inv_none hi h rfl ?_
-    constructor <;> first | exact hcasd | simp_all [haltPC]
+    refine inv_none hi h rfl hret ?_
+    constructor <;> first | exact hcasd | exact hsH | exact hsR | exact hsA | simp_all [haltPC]
   | 4 =>
     simp [exec, hpc, Thread.rd] at he
     split at he
@@ -72,25 +97,29 @@ theorem inv_run_next {s : GState} (hi : Inv s) {k : Nat} {t : Thread} {g fl' : N
       simp at he
       obtain ⟨rfl, rfl, rfl⟩ := he
       have hlt : s.floor < t.r0 := by have := hnx4 hk hpc; omega
-      refine inv_cas hi hlt ?_
+      refine inv_cas hi hlt hret ?_
       have hh : ∀ x ∈ s.hist, x < t.r0 := fun x hx => Nat.lt_of_le_of_lt (hi.histLe x hx) hlt
       have ha : ∀ x ∈ s.acks, x < t.r0 := fun x hx => Nat.lt_of_le_of_lt (hi.acksLe x hx) hlt
-      constructor <;> simp_all [haltPC]
+      have hs1 : ∀ x ∈ t.histAtStart, x < t.r0 := fun x hx => hh x (hsH x hx)
+      have hs2 : ∀ x ∈ t.acksAtStart, x < t.r0 := fun x hx => Nat.lt_of_le_of_lt (hsA x hx) hlt
+      have hs3 : ∀ x ∈ t.acksAtStart, x ≤ t.r0 := fun x hx => Nat.le_of_lt (hs2 x hx)
+      have hs4 : ∀ x ∈ t.histAtStart, x ∈ t.r0 :: s.hist := fun x hx => List.mem_cons_of_mem _ (hsH x hx)
+      constructor <;> first | exact hsR | exact hs3 | exact hs4 | simp_all [haltPC]
     · simp at he
       obtain ⟨rfl, rfl, rfl⟩ := he
-      refine inv_none hi h rfl ?_
-      constructor <;> first | exact hcasd | simp_all [haltPC]
+      refine inv_none hi h rfl hret ?_
+      constructor <;> first | exact hcasd | exact hsH | exact hsR | exact hsA | simp_all [haltPC]
   | 5 =>
     simp [exec, hpc, Thread.rd] at he
     obtain ⟨rfl, rfl, rfl⟩ := he
     have hc := hnx5 hk hpc
-    refine inv_ret hi h rfl (by simp [hk]) ?_
-    constructor <;> first | exact hcasd | simp_all [haltPC]
+    refine inv_ret hi h rfl (by simp [hk]) (fun v hv => by simp only [Ret.id.injEq] at hv; subst hv; exact (hcasd _ hc).1) ?_
+    constructor <;> first | exact hcasd | exact hsH | exact hsR | exact hsA | simp_all [haltPC]
   | 6 =>
     simp [exec, hpc] at he
     obtain ⟨rfl, rfl, rfl⟩ := he
-    refine inv_none hi h rfl ?_
-    constructor <;> first | exact hcasd | simp_all [haltPC]
+    refine inv_none hi h rfl hret ?_
+    constructor <;> first | exact hcasd | exact hsH | exact hsR | exact hsA | simp_all [haltPC]
   | n + 7 =>
     simp [exec, hpc] at he
 
@@ -99,59 +128,59 @@ theorem inv_run_setFloor {s : GState} (hi : Inv s) {k : Nat} {t : Thread} {g fl'
     (he : exec setFloorProg s.floor t g = some (fl', t', o)) : Inv (commit s k fl' t' o) := by
   have hT := hi.thr k t h
   have hret : t.ret = none := ret_none_of_exec hT (x := (fl', t', o)) (by rw [hk]; exact he)
-  obtain ⟨hcasd, hhalt, hnx4, hnx5, hnxr, hsfCur, hsf2, hsfProbe, hsf8, hsf9, hsf10, hsfOk⟩ := hT
+  obtain ⟨hcasd, hsH, hsR, hsA, hhalt, hnx4, hnx5, hnxr, hsfCur, hsf2, hsfProbe, hsf8, hsf9, hsf10, hsfOk⟩ := hT
   rw [setFloor_prog] at he
   match hpc : t.pc with
   | 0 =>
     simp [exec, hpc] at he
     obtain ⟨rfl, rfl, rfl⟩ := he
-    refine inv_none hi h (by simp [Thread.wr]) ?_
-    constructor <;> first | exact hcasd | simp_all [Thread.wr, haltPC]
+    refine inv_none hi h (by simp [Thread.wr]) (by simp [Thread.wr, hret]) ?_
+    constructor <;> first | exact hcasd | exact hsH | exact hsR | exact hsA | simp_all [Thread.wr, haltPC]
   | 1 =>
     simp [exec, hpc, evalCmp, Thread.rd] at he
     split at he
     · simp at he
       obtain ⟨rfl, rfl, rfl⟩ := he
-      refine inv_none hi h rfl ?_
-      constructor <;> first | exact hcasd | simp_all [haltPC]
+      refine inv_none hi h rfl hret ?_
+      constructor <;> first | exact hcasd | exact hsH | exact hsR | exact hsA | simp_all [haltPC]
     · simp at he
       obtain ⟨rfl, rfl, rfl⟩ := he
-      refine inv_none hi h rfl ?_
-      constructor <;> first | exact hcasd | simp_all [haltPC]
+      refine inv_none hi h rfl hret ?_
+      constructor <;> first | exact hcasd | exact hsH | exact hsR | exact hsA | simp_all [haltPC]
   | 2 =>
     simp [exec, hpc] at he
     obtain ⟨rfl, rfl, rfl⟩ := he
     have h1 := hsfCur hk (by simp [hpc])
     have h2 := hsf2 hk hpc
-    refine inv_ret hi h rfl (fun _ => by dsimp only; omega) ?_
-    constructor <;> first | exact hcasd | (simp_all [haltPC] <;> omega)
+    refine inv_ret hi h rfl (fun _ => by dsimp only; omega) (fun v hv => by cases hv) ?_
+    constructor <;> first | exact hcasd | exact hsH | exact hsR | exact hsA | (simp_all [haltPC] <;> omega)
   | 3 =>
     simp [exec, hpc] at he
     obtain ⟨rfl, rfl, rfl⟩ := he
-    refine inv_none hi h (by simp [Thread.wr]) ?_
-    constructor <;> first | exact hcasd | simp_all [Thread.wr, haltPC]
+    refine inv_none hi h (by simp [Thread.wr]) (by simp [Thread.wr, hret]) ?_
+    constructor <;> first | exact hcasd | exact hsH | exact hsR | exact hsA | simp_all [Thread.wr, haltPC]
   | 4 =>
     simp [exec, hpc, evalCmp, Thread.rd] at he
     split at he
     · simp at he
       obtain ⟨rfl, rfl, rfl⟩ := he
-      refine inv_none hi h rfl ?_
-      constructor <;> first | exact hcasd | simp_all [haltPC]
+      refine inv_none hi h rfl hret ?_
+      constructor <;> first | exact hcasd | exact hsH | exact hsR | exact hsA | simp_all [haltPC]
     · simp at he
       obtain ⟨rfl, rfl, rfl⟩ := he
-      refine inv_none hi h rfl ?_
-      constructor <;> first | exact hcasd | (simp_all [haltPC] <;> omega)
+      refine inv_none hi h rfl hret ?_
+      constructor <;> first | exact hcasd | exact hsH | exact hsR | exact hsA | (simp_all [haltPC] <;> omega)
   | 5 =>
     simp [exec, hpc] at he
     obtain ⟨rfl, rfl, rfl⟩ := he
-    refine inv_ret hi h rfl (by simp) ?_
-    constructor <;> first | exact hcasd | simp_all [haltPC]
+    refine inv_ret hi h rfl (by simp) (fun v hv => by cases hv) ?_
+    constructor <;> first | exact hcasd | exact hsH | exact hsR | exact hsA | simp_all [haltPC]
   | 6 =>
     simp [exec, hpc] at he
     obtain ⟨rfl, rfl, rfl⟩ := he
     have h1 := hsfProbe hk (by simp [hpc])
-    refine inv_none hi h (by simp [Thread.wr]) ?_
-    constructor <;> first | exact hcasd | simp_all [Thread.wr, haltPC]
+    refine inv_none hi h (by simp [Thread.wr]) (by simp [Thread.wr, hret]) ?_
+    constructor <;> first | exact hcasd | exact hsH | exact hsR | exact hsA | simp_all [Thread.wr, haltPC]
   | 7 =>
     simp [exec, hpc, evalCmp, Thread.rd] at he
     have h1 := hsfProbe hk (by simp [hpc])
@@ -159,20 +188,20 @@ theorem inv_run_setFloor {s : GState} (hi : Inv s) {k : Nat} {t : Thread} {g fl'
     split at he
     · simp at he
       obtain ⟨rfl, rfl, rfl⟩ := he
-      refine inv_none hi h rfl ?_
-      constructor <;> first | exact hcasd | simp_all [haltPC]
+      refine inv_none hi h rfl hret ?_
+      constructor <;> first | exact hcasd | exact hsH | exact hsR | exact hsA | simp_all [haltPC]
     · simp at he
       obtain ⟨rfl, rfl, rfl⟩ := he
-      refine inv_none hi h rfl ?_
-      constructor <;> first | exact hcasd | (simp_all [haltPC] <;> omega)
+      refine inv_none hi h rfl hret ?_
+      constructor <;> first | exact hcasd | exact hsH | exact hsR | exact hsA | (simp_all [haltPC] <;> omega)
   | 8 =>
     simp [exec, hpc] at he
     obtain ⟨rfl, rfl, rfl⟩ := he
     have h1 := hsfProbe hk (by simp [hpc])
     have h2 := hsfCur hk (by simp [hpc])
     have h3 := hsf8 hk hpc
-    refine inv_ret hi h rfl (fun _ => by dsimp only; omega) ?_
-    constructor <;> first | exact hcasd | (simp_all [haltPC] <;> omega)
+    refine inv_ret hi h rfl (fun _ => by dsimp only; omega) (fun v hv => by cases hv) ?_
+    constructor <;> first | exact hcasd | exact hsH | exact hsR | exact hsA | (simp_all [haltPC] <;> omega)
   | 9 =>
     simp [exec, hpc, Thread.rd] at he
     have h1 := hsfProbe hk (by simp [hpc])
@@ -182,27 +211,31 @@ theorem inv_run_setFloor {s : GState} (hi : Inv s) {k : Nat} {t : Thread} {g fl'
       simp at he
       obtain ⟨rfl, rfl, rfl⟩ := he
       have hlt : s.floor < t.r2 := by omega
-      refine inv_cas hi hlt ?_
+      refine inv_cas hi hlt hret ?_
       have hh : ∀ x ∈ s.hist, x < t.r2 := fun x hx => Nat.lt_of_le_of_lt (hi.histLe x hx) hlt
       have ha : ∀ x ∈ s.acks, x < t.r2 := fun x hx => Nat.lt_of_le_of_lt (hi.acksLe x hx) hlt
-      constructor <;> simp_all [haltPC]
+      have hs1 : ∀ x ∈ t.histAtStart, x < t.r2 := fun x hx => hh x (hsH x hx)
+      have hs2 : ∀ x ∈ t.acksAtStart, x < t.r2 := fun x hx => Nat.lt_of_le_of_lt (hsA x hx) hlt
+      have hs3 : ∀ x ∈ t.acksAtStart, x ≤ t.r2 := fun x hx => Nat.le_of_lt (hs2 x hx)
+      have hs4 : ∀ x ∈ t.histAtStart, x ∈ t.r2 :: s.hist := fun x hx => List.mem_cons_of_mem _ (hsH x hx)
+      constructor <;> first | exact hsR | exact hs3 | exact hs4 | simp_all [haltPC]
     · simp at he
       obtain ⟨rfl, rfl, rfl⟩ := he
-      refine inv_none hi h rfl ?_
-      constructor <;> first | exact hcasd | simp_all [haltPC]
+      refine inv_none hi h rfl hret ?_
+      constructor <;> first | exact hcasd | exact hsH | exact hsR | exact hsA | simp_all [haltPC]
   | 10 =>
     simp [exec, hpc] at he
     obtain ⟨rfl, rfl, rfl⟩ := he
     have h1 := hsfProbe hk (by simp [hpc])
     have h2 := hsf10 hk hpc
-    refine inv_ret hi h rfl (fun _ => by dsimp only; omega) ?_
-    constructor <;> first | exact hcasd | (simp_all [haltPC] <;> omega)
+    refine inv_ret hi h rfl (fun _ => by dsimp only; omega) (fun v hv => by cases hv) ?_
+    constructor <;> first | exact hcasd | exact hsH | exact hsR | exact hsA | (simp_all [haltPC] <;> omega)
   | 11 =>
     simp [exec, hpc] at he
     obtain ⟨rfl, rfl, rfl⟩ := he
     have h1 := hsfProbe hk (by simp [hpc])
-    refine inv_none hi h rfl ?_
-    constructor <;> first | exact hcasd | simp_all [haltPC]
+    refine inv_none hi h rfl hret ?_
+    constructor <;> first | exact hcasd | exact hsH | exact hsR | exact hsA | simp_all [haltPC]
   | n + 12 =>
     simp [exec, hpc] at he
 
